@@ -30,7 +30,8 @@ theorem createDir_foX (X : Fault → Err → Prop) (V : WView d.disarm st) (hd :
       d2.fault = none → FsGeomEq d.fs d2.fs → d2.img.size = d.img.size → d2.img.WF →
       tabView d2.fs d2.img = updV (tabView d.fs d.img) c .eoc →
       run (FatVerif.writeEntry st name raw) d2 = (rw, d3) → d3.failAt = none → d3.fault = some f →
-      run (freeClusterChain c) d3 = (.error e, d4) → X f e)
+      run (freeClusterChain c) d3 = (.error e, d4) →
+      V.Inv d2.disarm → raw.WF → V.slots d2.img = V.slots d.img → f.inDrop = false → X f e)
     (fuel : Nat) {r d'} (hr : run (FatVerif.createDir env (fuel + 1) st path) d = (r, d')) :
     FaultOutcomeX X (resErr r) d' := by
   have hn1 : 1 ≤ Lfn.numParts (Names.encodeUtf16 name.toList).length + 1 := by omega
@@ -174,7 +175,7 @@ theorem createDir_foX (X : Fault → Err → Prop) (V : WView d.disarm st) (hd :
           cases h6'
           exact Or.inl rfl
         · subst he
-          exact Or.inr ⟨e5, rfl, hX d2 d3 d' _ _ f e5 hf2 hg2 hsz2 hwf2 htv2 hw hfa3 hff h5⟩
+          exact Or.inr ⟨e5, rfl, hX d2 d3 d' _ _ f e5 hf2 hg2 hsz2 hwf2 htv2 hw hfa3 hff h5 hinv2 hrawwf hslots2 hdrop⟩
       rcases run_bind_cases hr3 with ⟨b, d4, h4, _⟩ | ⟨e4, h4, hre⟩
       · exfalso
         rcases run_bind_cases h4 with ⟨u, d5, _, h6⟩ | ⟨e5, _, he⟩
@@ -276,7 +277,7 @@ theorem createDir_fo (V : WView d.disarm st) (hd : d.fault = none) (hOK : FaultO
     FaultOutcomeX RollbackErr (resErr r) d' :=
   V.createDir_foX RollbackErr hd hOK env path name hsp hdot hval hla hgeo hinfo hacc hcs32 hcs64 hu32 hfuelN a hchk c hfind
     hfit hkeepA hslots hextra
-    (fun _ d3 d4 _ _ f e _ _ _ _ _ _ hfa hff hfree => ⟨c, d3, d4, hfa, hff, hfree⟩) fuel hr
+    (fun _ d3 d4 _ _ f e _ _ _ _ _ _ hfa hff hfree _ _ _ _ => ⟨c, d3, d4, hfa, hff, hfree⟩) fuel hr
 
 end WView
 
